@@ -211,6 +211,7 @@ func (c *deleteCleaner) deleteSegments(segments []*segment) error {
 			}
 			// Continue trying to delete other segments
 		}
+		verifCrashPoint("retention.after_delete_segment")
 	}
 
 	return firstErr
